@@ -585,10 +585,13 @@ class ExcelModel:
 
     def compile(self, inputs, outputs):
         dsp = self.dsp.shrink_dsp(inputs=inputs, outputs=outputs)
-        inp = set(inputs)
+        inp, stack = set(inputs), list(inputs)
         nodes = dsp.nodes
-        for i in inputs:
-            inp.update(nodes.get(i, {}).get('inv-data', ()))
+        while stack:  # A name can refer to a range that refers to cells.
+            for i in nodes.get(stack.pop(), {}).get('inv-data', ()):
+                if i not in inp:
+                    inp.add(i)
+                    stack.append(i)
         dsp.default_values = {
             k: v for k, v in dsp.default_values.items() if k not in inp
         }
